@@ -125,6 +125,9 @@ impl Stream {
         &self,
         data: Bytes,
     ) -> std::result::Result<(), mpsc::error::SendError<(u32, Bytes)>> {
+        if self.is_closed() {
+            return Err(mpsc::error::SendError((self.id, data)));
+        }
         self.writer_tx.send((self.id, data))
     }
 }
